@@ -270,6 +270,10 @@ def rule_f(model, rep):
     rep.check(qtext(fn).loose("if not self._schemes:\n        raise ValueError"), R, site(L, "CryptContext._validate_init"), "empty -> ValueError", "an empty scheme list is refused")
 
 
+from . import c08 as _c08, c09 as _c09  # noqa: E402
+from .shared import Renamed as _Renamed  # noqa: E402
+
+
 def run(model, rep):
     rep.explanation = __doc__
     from . import shared
@@ -280,3 +284,7 @@ def run(model, rep):
     rule_d(model, rep)
     rule_e(model, rep)
     rule_f(model, rep)
+    # the context applies its policy through handler.using(): settings must land on the derived class, and needs_update() must judge
+    # str and bytes hashes alike
+    _c09.rule_ab(model, _Renamed(rep, {"C09.a": "C04.g-using-forwarding", "C09.b": "C04.g-using-write-target"}, "C04.x-"))
+    _c08.rule_b(model, _Renamed(rep, {"C08.b": "C04.h-hash-normalised"}, "C04.x-"))
